@@ -50,6 +50,14 @@ func analyseExistsLoop(c *Ctx, fn *ssa.Function) *existsShape {
 						found = call
 					}
 				}
+				// ... or the library's own membership helper, itself an exists-loop by equality
+				if h := call.Call.StaticCallee(); h != nil && h != fn && h.Pkg != nil && isLibPkgPath(h.Pkg.Pkg.Path()) && len(call.Call.Args) == 2 && len(h.Blocks) > 1 {
+					if _, isP := stripConv(call.Call.Args[1]).(*ssa.Parameter); isP {
+						if hs := analyseExistsLoop(c, h); hs.Kind == "eq(elem,param)" && len(hs.Problems) == 0 {
+							found = call
+						}
+					}
+				}
 				// index-of forms: bytes.IndexByte(list, param) / slices.Index(list, param) compared with -1 / 0 below
 				if o := CalleeObj(call); o != nil && o.Pkg() != nil && len(call.Call.Args) == 2 &&
 					((o.Pkg().Path() == "bytes" && o.Name() == "IndexByte") || (o.Pkg().Path() == "slices" && o.Name() == "Index")) {
